@@ -143,6 +143,31 @@ func genSearchCases(r *Rng, count int, corpus map[string][]Seed) []*Case {
 	for _, in := range []string{".foo { composes: bar from x", ".foo { composes: bar from glob", ".a{composes:b from \\41"} {
 		mk(&Case{Kind: "transform", Input: []byte(in), Opts: Opts{Loader: "local-css"}, Desc: "regression:C16-css-identifier-range-hang"})
 	}
+	// boundary grid: every hostile tail at the very end of the input (lookahead guards at EOF),
+	// deterministically for each loader family
+	grid := func(tails []string, lds []string) {
+		for _, t := range tails {
+			for _, ld := range lds {
+				seeds := corpus[ld]
+				if len(seeds) == 0 {
+					seeds = corpus["css"]
+				}
+				s := seeds[r.Intn(len(seeds))]
+				in := s.Text
+				if len(in) > 300 || r.Chance(35) {
+					in = ""
+				}
+				o := Opts{Loader: ld}
+				if r.Chance(30) {
+					o = randOpts(r, ld)
+				}
+				mk(&Case{Kind: "transform", Input: []byte(in + t), Opts: o, Desc: s.From + fmt.Sprintf(" grid-tail(%q)", t)})
+			}
+		}
+	}
+	grid(jsTails, []string{"js", "tsx"})
+	grid(cssTails, []string{"css", "local-css"})
+	grid(jsonTails, []string{"json"})
 	for i := 0; i < count; i++ {
 		mode := r.Intn(100)
 		switch {
@@ -170,8 +195,11 @@ func genSearchCases(r *Rng, count int, corpus map[string][]Seed) []*Case {
 			seeds := corpus[ld]
 			s := seeds[r.Intn(len(seeds))]
 			in := []byte(s.Text)
-			if r.Chance(30) {
+			if r.Chance(20) {
 				in, _ = Mutate(r, in, seeds)
+			}
+			if r.Chance(40) { // several lines of generated code so that lookups fall before, inside and after the mappings
+				in = append([]byte("let a0 = 1;\nlet b0 = a0 + 2;\n"), in...)
 			}
 			m := randSourceMapJSON(r, corpus["srcmap"])
 			in = append(in, sourceMappingComment(r, m, ld == "css")...)
@@ -281,7 +309,7 @@ func runSearch(r *Rng, n int, tier string, corpus map[string][]Seed) *Stats {
 		case o.Status == "skipped":
 			st.Histogram["skipped-after-failures"]++
 		case o.Status == "timeout":
-			st.Fail("hang: no result within the wall-clock limit (re-run alone with twice the limit)", describeCase(c), fmt.Sprintf("no result after %d ms for %d input bytes", o.Millis, caseSize(c)), "terminates within seconds")
+			st.Fail("hang: no result within the wall-clock limit (re-run alone with three times the limit)", describeCase(c), fmt.Sprintf("no result after %d ms for %d input bytes", o.Millis, caseSize(c)), "terminates within seconds")
 		case o.Status == "died":
 			st.Fail("crash: the process died while building this input", describeCase(c), clip(o.Stderr, 2500), "ordinary diagnostics or output")
 		case o.Status == "panic":
